@@ -14,7 +14,9 @@ CONF = dict(
           'extension length 0 and 3, 16-byte identifier, nonce lengths 0/12/15/17/32, the genuine response of the previous exchange, authentic packet with malformed '
           'plaintext; silent peer (deadline); the genuine response from the server address but another port, and from another address with the server\'s port number. The same '
           'over SCION (client.MeasureClockOffsetSCION, one client, empty path; kinds scion.hist, scion.auth, scion.nts, scion.ntsauth, scion.allfail, scion.allfailauth): NTP and '
-          'NTS payload recipes wrapped into SCION/UDP packets, plus wrong source / destination ISD-AS, wrong source / destination host, bytes that are not SCION, cut-off '
+          'NTS payload recipes wrapped into SCION/UDP packets, plus wrong source / destination ISD-AS, wrong source / destination host, source / destination host addresses that resemble the queried one (IPv6 ending or beginning in the '
+          'server\'s four IPv4 bytes, IPv4-compatible ::a.b.c.d, the IPv4-mapped form of the server - the same host, accepted -, of another host, with one prefix bit off or the last '
+          'byte changed, a random IPv6 host, a service address, one bit of the IPv4 address flipped), bytes that are not SCION, cut-off '
           'packets; the client with Auth.Enabled (DRKey host-host key; the harness re-executes itself with USE_MOCK_KEYS=true) and the client without key are sent end-to-end '
           'extensions with packet authenticators (SPAO): genuine MAC, one MAC bit flipped, random / zero MAC, timestamp / sequence-number bytes changed after or before the MAC '
           'was computed, a bit of the NTP payload / of the SCION-UDP header / of the flow id flipped after the MAC was computed (the payload stays a valid response), a bit '
@@ -51,7 +53,9 @@ CONF = dict(
     explanation=('oracle: an exchange that reports the four timestamps must have been delivered a datagram from the server address with >= 48 bytes, origin = the request\'s '
                  'transmit field (or receive field of an interleaved request), leap != 3, version 3|4, mode 4, stratum 1..15, with NTS the request\'s unique identifier and a '
                  'valid AEAD tag under the S2C key, and - SCION client holding the DRKey host-host key - no packet authenticator for the server\'s SPI and algorithm whose MAC '
-                 'fails to verify, whose transmit/receive fields are the reported t2/t1 with t1 <= t2; a returned offset is that of an accepted exchange; a cookie in the pool '
+                 'fails to verify, whose transmit/receive fields are the reported t2/t1 with t1 <= t2, where for an interleaved response t1 must be the receive field of the '
+                 'datagram on which the previous SUCCESSFUL measurement of this client was based, as recorded by the oracle itself along the history (C05_basis; never what the '
+                 'request quotes: a timestamp of a skipped or rejected datagram must not enter a measurement); a returned offset is that of an accepted exchange; a cookie in the pool '
                  'after a call comes from the pool before it, a key exchange, or a datagram that passed all of these'),
     timeout_quick=900, timeout_thorough=3000,
     min_cases={'ip.hist': 480, 'scion.allfail': 1, 'scion.allfailauth': 1, 'scion.auth': 160, 'scion.hist': 160, 'scion.nts': 38, 'scion.ntsauth': 40},
